@@ -305,6 +305,7 @@ def fam_ugc():
             tok("start", "script"), tok("end", "script"), tok("start", "style"), tok("end", "style"), tok("self", "script"),
             tok("self", "input", (("id", "i"), ("type", "image"))), tok("self", "form", (("id", "f"),)), tok("self", "button"), tok("self", "meta", (("id", "m"),)),
             tok("self", "iframe", (("id", "x"), ("src", "http://e.com"))),
+            tok("start", "a", (("href", "http://e.com/"), ("xml:href", js))), tok("start", "p", (("xml:lang", "en"), ("xml:id", "i"))),   # prefixed spellings of allowed names
             tok("start", "iframe", (("src", "http://e.com"),)), tok("end", "iframe"), tok("start", "object"), tok("end", "object"),
             tok("start", "svg"), tok("start", "math"), tok("start", "form"), tok("start", "input", (("type", "image"), ("src", js))),
             tok("start", "base", (("href", "//x"),)), tok("start", "meta"), tok("start", "link", (("rel", "stylesheet"), ("href", "x"))),
@@ -388,7 +389,9 @@ def fam_conc():
     # checking switched off afterwards
     opts = [call("NewPolicy"), AA(["href"], ["a"]), call("RequireNoFollowOnLinks", b=True), call("RequireParseableURLs", b=False),
             call("AllowIFrames", vals=["allow-forms", "allow-scripts", "allow-popups"]), call("AllowURLSchemesMatching", pat="^(ftp|tel)$")]
-    recipes = [[call("UGCPolicy"), call("AllowComments")], pats, [call("StrictPolicy")], opts]
+    # URL checking on, a scheme admitted only through a scheme pattern (a verdict the library might be tempted to remember)
+    schemes = [call("NewPolicy"), AA(["href"], ["a"]), call("AllowURLSchemes", schemes=["http"]), call("AllowURLSchemesMatching", pat="^(ftp|tel)$")]
+    recipes = [[call("UGCPolicy"), call("AllowComments")], pats, [call("StrictPolicy")], opts, schemes]
     T = lambda d: tok("text", d=d)
     docs = [
         dict(toks=[tok("start", "iframe", (("sandbox", "allow-scripts allow-forms allow-scripts allow-popups allow-forms"),)), tok("end", "iframe"),
@@ -470,12 +473,14 @@ def fam_nesty():
     def AS(props, scope, els=(), pat="", handler="", enum="", re=""):
         return call("AllowStyles", props=list(props), scope=scope, els=list(els), pat=pat, handler=handler, enum=enum, re=re)
     base = [call("NewPolicy"), call("AllowElements", names=["b"]), AA(["href"], ["a"]), AA(["class"], pat="^lit$"),
-            AA(["style"], []), AS(["color"], "pat", pat="^my-"), AA(["class"], pat="^custom-", noattrs=True)]
+            AA(["style"], []), AS(["color"], "pat", pat="^my-"), AA(["class"], pat="^custom-", noattrs=True),
+            AA(["class"], ["xa"])]      # never bare, and its name ends with the name of another element (xa / a)
     recipes = [base, base + [call("AddSpaceWhenStrippingTag", b=True), call("SkipElementsContent", names=["custom-x"])]]
     toks = [tok("start", "a"), tok("start", "a", (("href", "/x"),)), tok("end", "a"),
             tok("start", "lit", (("class", "k"),)), tok("end", "lit"), tok("start", "split", (("class", "k"),)), tok("end", "split"),
             tok("start", "my-box", (("style", "color: red"),)), tok("end", "my-box"),
-            tok("start", "custom-x"), tok("end", "custom-x"), tok("start", "object"), tok("end", "object"), tok("text", d="<i a=1>t&<x")]
+            tok("start", "custom-x"), tok("end", "custom-x"), tok("start", "object"), tok("end", "object"),
+            tok("start", "xa"), tok("end", "xa"), tok("text", d="<i a=1>t&<x")]
     return dict(name="nesty", recipes=recipes, tokens=toks, wellnested=True)
 
 def fam_refine():
